@@ -108,6 +108,13 @@ class C13(vlib.Check):
                    # a pool large enough to hold the same geometry with equivalent groups listed in another order
                    "opts": {"num_conf": rng.choice([20, 30]), "first": -1, "pool_multiplier": 1, "rmsd_cutoff": 0.5,
                             "max_energy_diff": None, "forcefield": "uff", "seed": rng.choice([1, 7, 42])}}
+        for k in range(1 if self.tier == "quick" else 3):
+            # ... and one with 93 312 automorphisms (five freely permutable CF3 groups): two pool conformers that are one geometry up
+            # to a late-enumerated relabelling of equivalent atoms are still one conformer
+            self.count("input:symmetric-93312-automorphisms")
+            yield {"t": "gen", "smiles": "FC(F)(F)CC(CC(F)(F)F)(CC(F)(F)F)CC(C(F)(F)F)C(F)(F)F", "input": "smiles",
+                   "opts": {"num_conf": 10, "first": -1, "pool_multiplier": 1, "rmsd_cutoff": 0.5, "max_energy_diff": None,
+                            "forcefield": "uff", "seed": [1, 3, 1][k]}}
         for k in range(4 if self.tier == "quick" else 16):
             self.count("generator-reuse")
             smis = rng.sample(SMILES, 3)
